@@ -5,13 +5,29 @@ import (
 	"bytes"
 	"context"
 	"encoding/json"
+	"sync"
 
 	jsonrpc "github.com/filecoin-project/go-jsonrpc"
 
 	"gjvharness/verif"
 )
 
-type H struct{ ran int }
+type H struct {
+	ran  int
+	mu   sync.Mutex
+	tags map[int]int
+}
+
+// Tag counts its executions per argument.
+func (h *H) Tag(a int) int {
+	h.mu.Lock()
+	if h.tags == nil {
+		h.tags = map[int]int{}
+	}
+	h.tags[a]++
+	h.mu.Unlock()
+	return a + 1
+}
 
 func (h *H) Inc(a int) int { h.ran++; return a + 1 }
 
@@ -184,6 +200,53 @@ func HarnessHostileServer() {
 	pc2.CloseGraceful()
 	verif.Quiesce()
 	verif.Reach("hostile-server-done")
+}
+
+// HarnessHostileThenPipelined: after a hostile frame, and one ordinary exchange,
+// two valid requests arrive back to back (so that both can be waiting in the
+// server's queue at once). Each is executed exactly once and answered with its
+// own result: a bad frame must not leave anything behind that later traffic trips over.
+func HarnessHostileThenPipelined() {
+	h := &H{}
+	srv := jsonrpc.NewServer()
+	srv.Register("H", h)
+	pc := verif.DialRaw(srv, nil)
+	pc.Send(hostileFrame())
+	verif.Assert(probe(pc, 99, 41), "probe-on-same-connection-answered")
+	x1, x2 := int64(7001), int64(7002)
+	b1, _ := json.Marshal(map[string]interface{}{"jsonrpc": "2.0", "id": 1001, "method": "H.Tag", "params": []interface{}{x1}})
+	b2, _ := json.Marshal(map[string]interface{}{"jsonrpc": "2.0", "id": 1002, "method": "H.Tag", "params": []interface{}{x2}})
+	pc.Send(b1)
+	pc.Send(b2)
+	answers := map[float64]int{}
+	for i := 0; i < 2; i++ {
+		rb, ok := pc.Recv()
+		verif.Assert(ok, "connection-stays-up")
+		if !ok {
+			break
+		}
+		var r wsReply
+		verif.Assert(json.Unmarshal(rb, &r) == nil, "reply-is-json")
+		id, _ := r.ID.(float64)
+		answers[id]++
+		switch id {
+		case 1001:
+			verif.Assert(r.Error == nil && r.Result != nil && *r.Result == x1+1, "first-pipelined-request-own-result")
+		case 1002:
+			verif.Assert(r.Error == nil && r.Result != nil && *r.Result == x2+1, "second-pipelined-request-own-result")
+		default:
+			verif.Assert(false, "answer-for-a-request-that-was-made")
+		}
+	}
+	verif.Quiesce()
+	verif.Assert(answers[1001] == 1 && answers[1002] == 1, "each-pipelined-request-answered-exactly-once")
+	h.mu.Lock()
+	verif.Assert(h.tags[7001] == 1 && h.tags[7002] == 1, "each-request-executed-exactly-once")
+	h.mu.Unlock()
+	verif.Assert(!verif.Crashed(), "process-survives")
+	pc.CloseGraceful()
+	verif.Quiesce()
+	verif.Reach("hostile-then-pipelined-done")
 }
 
 type C struct {
